@@ -205,6 +205,8 @@ inductive Item where
   | bool (b : Bool)
   | int (i : Int)
   | bytes (b : Bytes)
+  /-- a Buffer item (never produced by ToStackItem) -/
+  | buffer (b : Bytes)
   | array (xs : List Item)
   | struct (xs : List Item)
   | map (size : Nat)
@@ -277,6 +279,7 @@ def Item.size : Item → Nat
   | .bool _ => 2
   | .int i => 2 + intBytesLen i
   | .bytes b => 1 + varLen b.length + b.length
+  | .buffer b => 1 + varLen b.length + b.length
   | .array xs => 1 + varLen xs.length + Item.sizeList xs
   | .struct xs => 1 + varLen xs.length + Item.sizeList xs
   | .map n => 1 + varLen n
@@ -314,20 +317,57 @@ structure Dec where
   decodeKey : Bytes → Option Bytes
   validTypes : List Nat
 
-/-- `stackitem.ToString` on a ByteArray item. (Integer/Boolean items are convertible to bytes in the real code
-too; the model only accepts the ByteArray that ToStackItem produces — see props/C16.json.) -/
-def Dec.toStr (d : Dec) : Item → Option Bytes
-  | .bytes b => if d.utf8 b then some b else none
-  | _ => none
+/-- `bigint.ToBytes`: minimal two's complement, little endian (`intBytesLen` bytes). -/
+def intToBytes (i : Int) : Bytes :=
+  let n := intBytesLen i
+  (List.range n).map fun k => UInt8.ofNat ((i.emod (256 ^ n)).toNat / 256 ^ k % 256)
 
+/-- `bigint.FromBytes`: little endian two's complement. -/
+def bytesToInt (b : Bytes) : Int :=
+  let n : Nat := (b.zipIdx.map fun (x, k) => x.toNat * 256 ^ k).sum
+  match b.getLast? with
+  | some top => if top ≥ 128 then (n : Int) - 256 ^ b.length else n
+  | none => 0
+
+/-- `Item.TryBytes` (item.go): ByteArray and Buffer as they are, Integer and Boolean converted, nothing else. -/
 def tryBytes : Item → Option Bytes
   | .bytes b => some b
+  | .buffer b => some b
+  | .int i => some (intToBytes i)
+  | .bool b => some [if b then 1 else 0]
   | _ => none
 
-/-- `TryInteger` followed by `ConvertToParamType`. -/
-def Dec.toType (d : Dec) : Item → Option Nat
-  | .int i => if 0 ≤ i ∧ d.validTypes.contains i.toNat then some i.toNat else none
+/-- `Item.TryInteger`: Integer, Boolean (0/1), ByteArray of at most 32 bytes; not Buffer. -/
+def tryInt : Item → Option Int
+  | .int i => some i
+  | .bool b => some (if b then 1 else 0)
+  | .bytes b => if b.length ≤ 32 then some (bytesToInt b) else none
   | _ => none
+
+/-- `Item.TryBool`: everything converts except a ByteArray longer than 32 bytes. -/
+def tryBool : Item → Option Bool
+  | .bool b => some b
+  | .int i => some (i != 0)
+  | .bytes b => if b.length ≤ 32 then some (b.any (· != 0)) else none
+  | .null => some false
+  | _ => some true
+
+/-- `(*big.Int).Int64()` as Go computes it also beyond the int64 range: the low 64 bits of |x|, reinterpreted as
+int64, with the sign of x (method.go:83,91, parameter.go:72 apply `int(x.Int64())`). -/
+def int64Of (i : Int) : Int :=
+  let a : Int := (i.natAbs % 2 ^ 64 : Nat)
+  let w := if a ≥ 2 ^ 63 then a - 2 ^ 64 else a
+  if i < 0 then (if w = -(2 ^ 63) then w else -w) else w   -- the negation wraps in int64
+
+/-- `stackitem.ToString`: TryBytes, then utf8.Valid. -/
+def Dec.toStr (d : Dec) (it : Item) : Option Bytes :=
+  (tryBytes it).bind fun b => if d.utf8 b then some b else none
+
+/-- `TryInteger`, `int(x.Int64())`, then `ConvertToParamType`. -/
+def Dec.toType (d : Dec) (it : Item) : Option Nat :=
+  (tryInt it).bind fun i =>
+    let v := int64Of i
+    if 0 ≤ v ∧ d.validTypes.contains v.toNat then some v.toNat else none
 
 /-- Parameter.FromStackItem (parameter.go:57-79). -/
 def Dec.param (d : Dec) : Item → Option Param
@@ -339,11 +379,13 @@ def Dec.param (d : Dec) : Item → Option Param
 
 /-- Method.FromStackItem (method.go:53-98). -/
 def Dec.method (d : Dec) : Item → Option Method
-  | .struct [n, .array ps, r, .int off, .bool safe] => do
+  | .struct [n, .array ps, r, off, safe] => do
     let name ← d.toStr n
     let params ← mapOpt d.param ps
     let ret ← d.toType r
-    pure ⟨name, off, params, ret, safe⟩
+    let o ← tryInt off
+    let s ← tryBool safe
+    pure ⟨name, int64Of o, params, ret, s⟩
   | _ => none
 
 /-- Event.FromStackItem (event.go:42-66). -/
@@ -385,7 +427,8 @@ def Dec.perm (d : Dec) : Item → Option Perm
 
 /-- Manifest.FromStackItem (manifest.go:281-363). -/
 def Dec.man (d : Dec) : Item → Option Man
-  | .struct [n, .array gs, .map 0, .array ss, .struct [.array ms, .array es], .array ps, t, .bytes extra] => do
+  | .struct [n, .array gs, .map 0, .array ss, .struct [.array ms, .array es], .array ps, t, ex] => do
+    let extra ← tryBytes ex
     let name ← d.toStr n
     let groups ← mapOpt d.group gs
     let standards ← mapOpt d.toStr ss
